@@ -105,6 +105,10 @@ class Ctx:
             if rc == 0 and len(out) == hi - lo:
                 outs[lo:hi] = out
                 return
+            if hi - lo == 1 and out and out[-1] == "HANG":
+                crashes += 1
+                outs[lo] = "HANG"
+                return
             if hi - lo == 1:
                 crashes += 1
                 summ = "signal/exit %d" % rc
@@ -127,6 +131,17 @@ class Ctx:
                 go(lo, mid); go(mid, hi)
         if lines: go(0, len(lines))
         return outs, crashes
+
+    def run_c_parallel(self, exe, lines, jobs=16, **kw):
+        """run_c_bisect over `jobs` slices concurrently (lines must be stateless)"""
+        from concurrent.futures import ThreadPoolExecutor
+        if len(lines) < 200: return self.run_c_bisect(exe, lines, **kw)
+        step = (len(lines) + jobs - 1) // jobs
+        slices = [lines[i:i + step] for i in range(0, len(lines), step)]
+        with ThreadPoolExecutor(jobs) as ex:
+            res = list(ex.map(lambda sl: self.run_c_bisect(exe, sl, **kw), slices))
+        outs = [o for r in res for o in r[0]]
+        return outs, sum(r[1] for r in res)
 
     def correspond(self, name, cexe, lines, canon=None, **kw):
         """Differential run of the C driver and the Lean model on the same lines.
